@@ -36,6 +36,8 @@ for d in "$ROOT"/*/; do
   [ -d "$d" ] || continue
   [ "${d%/}" = "$DIR" ] && continue
   if [ -f "${d}.inuse" ]; then
+    # handed out less than 15 minutes ago (a check may be about to lock it), or locked
+    [ -n "$(find "${d}.inuse" -mmin -15 2>/dev/null)" ] && continue
     ( exec 7<"${d}.inuse"; flock -n -x 7 ) || continue
   fi
   rm -rf "$d"
@@ -67,4 +69,5 @@ case "$VARIANT" in
       ( cd "$DIR/plain" && go build -race -o "$DIR/sim-race" ./zzverif/cmd/sim ) >&2 || { log "race build failed"; exit 2; }
     fi ;;
 esac
+touch "$DIR/.inuse"
 echo "$DIR"
